@@ -5,7 +5,7 @@ package compressutil
 // model). The real compress/gzip code is executed by the interpreter on concrete payloads:
 // (1) UnZip(DoZip(x)) == x for two different payloads, (2) the compressed bytes handed out
 // by one call are not altered by the next call (a retained pack stays intact), (3) nil
-// input is refused. Payloads: 0..40 bytes of a repeating pattern / distinct bytes.
+// input is refused. Payloads: 0, 1, 40 and 40000 bytes of a repeating pattern / 33 distinct bytes.
 
 import "github.com/whatap/golib/zzvf"
 
@@ -21,9 +21,10 @@ func zzPayload(kind, n int) []byte {
 	return b
 }
 
-//vf: paths=200 nostub=1 steps=80000000 visits=2000000
+//vf: paths=200 nostub=1 steps=400000000 visits=20000000
 func ZZ_C16_RealZip() {
-	n := []int{0, 1, 40}[zzvf.Choose(3)]
+	// 40000: more than the 32 KiB decompression window (one Read does not return it all)
+	n := []int{0, 1, 40, 40000}[zzvf.Choose(4)]
 	a, b := zzPayload(0, n), zzPayload(1, 33)
 	za, err := DoZip(a)
 	zzvf.Assert(err == nil, "realzip/compress-ok")
